@@ -44,9 +44,10 @@ func failoverPolicy(typeName string) pw.Policy {
 			sig, _ := fn.Type().(*types.Signature)
 			return sig != nil && sig.Recv() == nil && !fn.Exported()
 		},
-		Pure:     basePure,
-		Role:     BaseRole,
-		MaxDepth: 4,
+		SpawnDeclared: func(fn *types.Func) bool { return sameRecvNamed(fn, typeName) },
+		Pure:          basePure,
+		Role:          BaseRole,
+		MaxDepth:      4,
 		Consistent: func(f *pw.FactView) bool {
 			// axiom (a): a backend Read that fails returns no value (nil for nil-able value types).
 			for _, ev := range f.Events() {
@@ -396,6 +397,10 @@ func (c *Ctx) c01Sibling(fo *FO) {
 						}
 						if isBuilderCall(fo, sev) {
 							checkBuilder(i, sev, "in background")
+							if rel > 0 {
+								d, t := c.pathDetail(fo, p, "the owner releases the key lock on its own path although the build it spawned runs in the background: the next Get elects a second owner while that build is still running")
+								r.Bad("R01.3", cons, "bg-build-outlives-lock", c.Pos(sev.Pos), d, t)
+							}
 							if sRel >= 0 {
 								d, t := c.pathDetail(fo, p, "background builder runs after the closure released the key lock")
 								r.Bad("R01.3", cons, "bg-build-after-release", c.Pos(sev.Pos), d, t)
